@@ -323,6 +323,7 @@ func runC14(p *eng.Prog, r *eng.Report, tier string) {
 	c14Handler(c)
 	c14Routers(c)
 	c14Options(c)
+	c14OwnAttrs(c)
 	c07Fallback(c)
 	// ---- C14.4b the *Func options refuse nil funcs too ---------------------------------
 	// a nil func converted to the handler interface is a NON-nil interface: the
@@ -596,6 +597,8 @@ func c14Routers(c *cx) {
 					c.dom(id, fc, cl, "empty-stanza lookup", []string{"eq(builtin.len(*.buf),2)", "istype(p1;" + k.typ + ")"})
 				} else {
 					c.dom(id, fc, cl, "per-child lookup", []string{"!eq(*Iter.Current[*]()#0,nil)", "istype(p1;" + k.typ + ")"})
+					// converse: nothing else decides whether a child is dispatched
+					c.onlyFacts(id, fc, cl, "every child is dispatched", []string{"mellium.im/xmlstream.Iter.Next[*]()", "!eq(*Iter.Current[*]()#0,nil)", "istype(p1;*)", "!istype(p1;*)"})
 				}
 			}
 		}
@@ -741,4 +744,73 @@ func c14Options(c *cx) {
 		}
 	}
 	c.r.Floor(id, "registrations", n, 4)
+}
+
+// c14OwnAttrs: the stanza values the routers dispatch on (type, id, to, from)
+// are taken from the stanza's own attributes only: in stanza.NewIQ, NewMessage
+// and NewPresence every assignment to one of these fields inside the attribute
+// loop is dominated by "the attribute is unqualified or in the stanza's own
+// namespace" (a foreign x:type must not select the handler).
+func c14OwnAttrs(c *cx) {
+	n := 0
+	for _, name := range []string{"NewIQ", "NewMessage", "NewPresence"} {
+		f := c.fn("C14.6", "stanza", name)
+		if f == nil {
+			continue
+		}
+		g := f.Graph()
+		type fieldSet struct {
+			stmt ast.Node
+			lhs  ast.Expr
+		}
+		var sets []fieldSet
+		for _, w := range f.Writes() {
+			sets = append(sets, fieldSet{w.Stmt, w.LHS})
+		}
+		// (&v.Type).UnmarshalXMLAttr(attr) sets the field too
+		for _, cl := range f.AllCalls() {
+			if fs, ok := ast.Unparen(cl.Fun).(*ast.SelectorExpr); ok && strings.HasPrefix(fs.Sel.Name, "Unmarshal") {
+				x := ast.Unparen(fs.X)
+				if u, ok := x.(*ast.UnaryExpr); ok && u.Op == token.AND {
+					x = ast.Unparen(u.X)
+				}
+				sets = append(sets, fieldSet{cl, x})
+			}
+		}
+		for _, w := range sets {
+			sel, ok := ast.Unparen(w.lhs).(*ast.SelectorExpr)
+			if !ok {
+				continue
+			}
+			switch sel.Sel.Name {
+			case "ID", "To", "From", "Type":
+			default:
+				continue
+			}
+			// inside the loop over the start element's attributes
+			inLoop := false
+			for p := g.Parent(w.stmt); p != nil; p = g.Parent(p) {
+				if rs, ok := p.(*ast.RangeStmt); ok && f.Norm(rs.X, nil) == "p0.Attr" {
+					inLoop = true
+				}
+			}
+			if !inLoop {
+				continue
+			}
+			n++
+			pt, ok := g.Where(w.stmt)
+			if !ok {
+				c.r.Check("C14.6", f, "stanza field "+sel.Sel.Name+" taken from an attribute", "site located", w.stmt.Pos(), false, "statement not in the graph")
+				continue
+			}
+			pats := []string{
+				`or(eq(p0.Name.Space,rangeval(p0.Attr).Name.Space) | eq(rangeval(p0.Attr).Name.Space,""))`,
+				`eq(rangeval(p0.Attr).Name.Space,"")`,
+				`eq(p0.Name.Space,rangeval(p0.Attr).Name.Space)`,
+			}
+			okd, why := g.DominatedAny(pt, pats)
+			c.r.Check("C14.6", f, "stanza field "+sel.Sel.Name+" taken from an attribute", "G: the assignment is dominated by 'attribute namespace is empty or the stanza's own' (a foreign-namespace x:type/x:id/x:to/x:from is not the stanza's own)", w.stmt.Pos(), okd, why)
+		}
+	}
+	c.r.Floor("C14.6", "attribute-derived stanza fields", n, 12)
 }
